@@ -27,12 +27,13 @@ def run(ctx):
         for i, p in enumerate(PROGS2 + PROGS3):
             if guards_needed(';' + p) > K:
                 continue
-            if q and c not in CORE and (i + ctx.seed + ALL.index(c)) % 4 != 0:
+            many = 'acq3:3' in p
+            if q and c not in CORE and (i + ctx.seed + ALL.index(c)) % 4 != 0 and not (many and c in ('hpd1', 'hed1')):
                 continue
             if q and i >= len(PROGS2) and c not in ('hp3', 'ebr0', 'stamp', 'qsbr'):
                 continue
             jobs.append('%s;;%s' % (c, p))
-    run_client(ctx, jobs, pb=2 if q else 3, max_exec=600 if q else 20000)
+    run_client(ctx, jobs, pb=2 if q else 3, max_exec=800 if q else 20000)
     if not q:
         run_client(ctx, jobs, pb=5, max_exec=0, mode='random', runs=800)
     for r in ctx.tv[:2]:
